@@ -46,8 +46,25 @@ def make_spec(shape, strategy, variant=None):
             rel['backref_kw'] = {'uselist': False}
     else:
         spec = envs.shape_m2m({'strategy': strategy})
+    if variant == 'aliaskeys':
+        # key and foreign-key attributes named differently from their columns (ident = Column('id'), art = Column('article_id'))
+        for c in spec['classes']:
+            for column in c['columns']:
+                if column['name'] in KEY_ALIAS:
+                    column['attr'] = KEY_ALIAS[column['name']]
     spec['shape'] = shape
     return spec
+
+
+KEY_ALIAS = {'id': 'ident', 'article_id': 'art'}
+
+
+def _attr(variant, name):
+    return KEY_ALIAS.get(name, name) if variant == 'aliaskeys' else name
+
+
+def _by_name(table, d):
+    return {next(c for c in table.columns if c.name == name): v for name, v in d.items()}
 
 
 def read_relationships(env, shape, variant=None):
@@ -56,20 +73,22 @@ def read_relationships(env, shape, variant=None):
     info = SHAPES[shape]
     s = env.new_session()
     out = []
+    ID, FK = _attr(variant, 'id'), _attr(variant, 'article_id')
+    pk = lambda o: getattr(o, ID)
     for owner, attr, kind, remote, extra in info['rels']:
         V = sc.version_class(env.classes[owner])
-        for v in s.query(V).order_by(V.id, V.transaction_id).all():
+        for v in s.query(V).order_by(getattr(V, ID), V.transaction_id).all():
             val = getattr(v, attr)
             if kind == 'm2o':
-                ans = None if val is None else [[val.id], val.transaction_id]
+                ans = None if val is None else [[pk(val)], val.transaction_id]
             elif variant == 'dynamic' and kind == 'o2m':
-                ans = sorted([[x.id], x.transaction_id] for x in val.all())      # a Query (lazy='dynamic')
+                ans = sorted([[pk(x)], x.transaction_id] for x in val.all())      # a Query (lazy='dynamic')
             elif variant == 'o2o' and kind == 'o2m':
-                ans = [] if val is None else [[[val.id], val.transaction_id]]    # a scalar (uselist=False)
+                ans = [] if val is None else [[[pk(val)], val.transaction_id]]    # a scalar (uselist=False)
             else:
-                ans = sorted([[x.id], x.transaction_id] for x in val)
-            out.append({'owner': owner, 'attr': attr, 'kind': kind, 'remote': remote, 'pk': [v.id], 'tx': v.transaction_id,
-                        'fk': (None if getattr(v, 'article_id', None) is None else [v.article_id]) if kind == 'm2o' else None,
+                ans = sorted([[pk(x)], x.transaction_id] for x in val)
+            out.append({'owner': owner, 'attr': attr, 'kind': kind, 'remote': remote, 'pk': [pk(v)], 'tx': v.transaction_id,
+                        'fk': (None if getattr(v, FK, None) is None else [getattr(v, FK)]) if kind == 'm2o' else None,
                         'ans': ans})
     if variant == 'nv':
         # non-versioned target: the version shows the CURRENT related rows
@@ -115,7 +134,7 @@ class C04(Prop):
     chunk = 2
     rule = ('(a) random contents of parent, child and association version tables (entities deleted and re-created, children '
             'moved between parents, links removed and re-added, NULL foreign keys) written directly -> every reflected '
-            'relationship (one-to-many - also declared lazy=dynamic or as a one-to-one scalar -, many-to-one, many-to-many from both sides; a non-versioned target class shows its current rows) of every version object read with the '
+            'relationship (one-to-many - also declared lazy=dynamic or as a one-to-one scalar -, many-to-one, many-to-many from both sides; key and foreign-key attributes named differently from their columns; a non-versioned target class shows its current rows) of every version object read with the '
             'real code, compared with the Lean criteria and judged by C04.Holds; (b) session programs that create, re-point, '
             'unlink and delete related entities across transactions -> every relationship of every version compared with '
             'the reconstruction from the per-commit SQL snapshots; non-trivial = a related entity has >= 2 versions and '
@@ -125,7 +144,7 @@ class C04(Prop):
                    'standard foreign-key joins of the shapes used',
                    'single-column keys for relationship endpoints']
     needs_tags = ['kind:tables', 'kind:history', 'shape:articles', 'shape:m2m', 'deleted_remote', 'moved_child', 'relinked',
-                  'variant:dynamic', 'variant:o2o', 'variant:nv', 'nv_related_rows', 'o2o_unique']
+                  'variant:dynamic', 'variant:o2o', 'variant:nv', 'variant:aliaskeys', 'nv_related_rows', 'o2o_unique']
 
     def counts(self, tier):
         return (90, 50) if tier == 'quick' else (3000, 1500)
@@ -160,7 +179,7 @@ class C04(Prop):
                 for a, t, tx in links[:rng.choice([1, 2, 4, 6, 8])]:
                     arows.append([0, [a, t], tx, rng.choice([0, 0, 2])])
                 arows.sort()
-            variant = rng.choice([None, None, 'dynamic', 'o2o']) if shape == 'articles' else None
+            variant = rng.choice([None, None, 'dynamic', 'o2o', 'aliaskeys']) if shape == 'articles' else rng.choice([None, None, 'aliaskeys'])
             yield {'kind': 'tables', 'shape': shape, 'strategy': strategy, 'rows': rows, 'arows': arows, 'variant': variant}
         for _ in range(nh):
             shape = rng.choice(['articles', 'm2m'])
@@ -189,7 +208,7 @@ class C04(Prop):
                             d['end_transaction_id'] = end
                         for c, v in zip(cols, vals):
                             d[c] = v if c == 'article_id' else (None if v is None else 's%d' % v)
-                        env.conn.execute(vt.insert().values(**d))
+                        env.conn.execute(vt.insert().values(_by_name(vt, d)))
                 if case['shape'] == 'm2m':
                     at = env.Base.metadata.tables['article_tag_version']
                     for _, link, tx, op in case['arows']:
